@@ -9,12 +9,14 @@ GoSem — a small imperative language with a big-step interpreter, the target of
 that the hand-written model functions (`Model.Iter` …) are exactly the meaning of the regenerated syntax trees.
 
 Subset of Go covered (the translator aborts on anything else): assignments to locals and to fields of the pointer
-receiver(s), `+=`/`-=`/`++`/`--`, `if`/`else`, expression `switch` with value lists, `for { }` and `for cond { }`,
-`break`/`continue` (innermost loop), `return` with values, method calls on a receiver of the same struct type
+receiver(s), `+=`/`-=`/`++`/`--`, `if`/`else`, expression `switch` with value lists, `for { }`, `for cond { }`, `for init; cond; post { }` and
+`for _, v := range <byte slice>`, `var x T`, `break`/`continue` (innermost loop), `return` with values, method calls on a receiver of the same struct type
 (run on the callee's syntax tree, fields copied in and out — pointer-receiver aliasing of distinct objects),
 `len(x.tape.Tape)`, indexing and index assignment of the tape slice (bounds-checked against the *slice* length: a
 failed check is `panic`), table look-ups, integer and bitwise operators, comparisons, lazy `&&`/`||`,
-conversions between `int`, `uint64`, `Tag`/`Type`/`byte`.
+conversions between `int`, `uint64`, `Tag`/`Type`/`byte`; byte slices as values: `len`, `a[lo:hi]` (bounds-checked),
+`binary.LittleEndian.Uint64`; a block of a larger function may be translated on its own, its free variables
+(`s.tagsBuf`, `dst.Tape`) becoming inputs.
 
 Modelling decisions (trusted, stated here once):
 * Go `int` is 64-bit two's complement; here it is an unbounded `Int`.  Every `int` of the translated functions is
@@ -34,6 +36,7 @@ inductive Val where
   | u64 (w : UInt64)
   | u8 (b : UInt8)
   | bool (b : Bool)
+  | bytes (b : Bytes)                       -- a `[]byte` value (the slice's visible content; aliasing is not modelled)
   deriving DecidableEq, Repr, Inhabited
 
 inductive BinOp where
@@ -54,6 +57,9 @@ inductive Expr where
   | lenTape (base : String)                 -- `len(base.tape.Tape)`
   | tapeAt (base : String) (idx : Expr)     -- `base.tape.Tape[idx]`
   | tbl (name : String) (idx : Expr)        -- `TagToType[idx]`
+  | lenB (a : Expr)                         -- `len(a)` of a byte slice
+  | sliceB (a lo hi : Expr)                 -- `a[lo:hi]` of a byte slice (a missing bound is printed as 0 / `len(a)`)
+  | le64 (a : Expr)                         -- `binary.LittleEndian.Uint64(a)`
   deriving Repr, Inhabited
 
 inductive Stmt where
@@ -65,6 +71,8 @@ inductive Stmt where
   | switch (e : Expr) (cases : List (List Expr × List Stmt)) (dflt : List Stmt)
   | loop (body : List Stmt)                         -- `for { body }`
   | while (c : Expr) (body : List Stmt)             -- `for c { body }`
+  | forc (init : List Stmt) (c : Expr) (post body : List Stmt)   -- `for init; c; post { body }`
+  | rangeB (v : String) (e : Expr) (body : List Stmt)            -- `for _, v := range e { body }`, `e` a byte slice
   | brk
   | cont
   | ret (es : List Expr)
@@ -156,6 +164,10 @@ def convert (ty : Ty) (a : Val) : Option Val :=
   | .bool, .bool b => some (.bool b)
   | _, _ => none
 
+/-- `binary.LittleEndian.Uint64` of the first eight bytes -/
+def leU64 (b : Bytes) : UInt64 :=
+  (List.range 8).foldl (fun acc k => acc ||| ((b.getD k 0).toUInt64 <<< (UInt64.ofNat (8 * k)))) 0
+
 /-- result of evaluating an expression: a value, a run-time panic, or an ill-typed tree -/
 inductive EOut where
   | val (v : Val)
@@ -199,8 +211,40 @@ def evalE (s : St) : Expr → EOut
     | o => o
   | .lenTape base =>
     match s.env.get (base ++ ".lim") with | some v => .val v | none => .stuck ("unbound lim of " ++ base)
+  | .lenB a =>
+    match evalE s a with
+    | .val (.bytes b) => .val (.int b.size)
+    | .val _ => .stuck "len operand"
+    | o => o
+  | .sliceB a lo hi =>
+    match evalE s a with
+    | .val (.bytes b) =>
+      (match evalE s lo with
+       | .val (.int l) =>
+         (match evalE s hi with
+          | .val (.int h) => if 0 ≤ l ∧ l ≤ h ∧ h ≤ b.size then .val (.bytes (b.extract l.toNat h.toNat)) else .panic
+          | .val _ => .stuck "slice bound type"
+          | o => o)
+       | .val _ => .stuck "slice bound type"
+       | o => o)
+    | .val _ => .stuck "slice operand"
+    | o => o
+  | .le64 a =>
+    match evalE s a with
+    | .val (.bytes b) => if b.size < 8 then .panic else .val (.u64 (leU64 b))
+    | .val _ => .stuck "Uint64 operand"
+    | o => o
   | .tapeAt base idx =>
     match evalE s idx with
+    | .val (.u64 k) =>
+      (match s.env.get (base ++ ".lim") with
+       | some (.int lim) =>
+         if (k.toNat : Int) < lim then
+           match s.tape[k.toNat]? with
+           | some w => .val (.u64 w)
+           | none => .panic
+         else .panic
+       | _ => .stuck "lim")
     | .val (.int k) =>
       (match s.env.get (base ++ ".lim") with
        | some (.int lim) =>
@@ -265,6 +309,16 @@ def exec1 (funs : String → Option FunDef) : (fuel : Nat) → Stmt → St → O
     | o => ofE o
   | fuel, .tapeSet base idx e, s =>
     match evalE s idx with
+    | .val (.u64 k) =>
+      (match evalE s e with
+       | .val (.u64 w) =>
+         (match s.env.get (base ++ ".lim") with
+          | some (.int lim) =>
+            if h : (k.toNat : Int) < lim ∧ k.toNat < s.tape.size then .normal { s with tape := s.tape.set k.toNat w h.2 }
+            else .panic
+          | _ => .stuck "lim")
+       | .val _ => .stuck "tape value type"
+       | o => ofE o)
     | .val (.int k) =>
       (match evalE s e with
        | .val (.u64 w) =>
@@ -318,6 +372,31 @@ def exec1 (funs : String → Option FunDef) : (fuel : Nat) → Stmt → St → O
        | o => o)
     | .val _ => .stuck "condition type"
     | o => ofE o
+  | 0, .forc init c post body, s => .diverge
+  | fuel + 1, .forc (i :: is) c post body, s =>
+    match exec funs fuel (i :: is) s with
+    | .normal s' => exec1 funs fuel (.forc [] c post body) s'
+    | .brk _ | .cont _ => .stuck "break outside loop"
+    | o => o
+  | fuel + 1, .forc [] c post body, s =>
+    match evalE s c with
+    | .val (.bool false) => .normal s
+    | .val (.bool true) =>
+      (match exec funs fuel body s with
+       | .normal s' | .cont s' =>
+         (match exec funs fuel post s' with
+          | .normal s'' => exec1 funs fuel (.forc [] c post body) s''
+          | .brk _ | .cont _ => .stuck "break in post statement"
+          | o => o)
+       | .brk s' => .normal s'
+       | o => o)
+    | .val _ => .stuck "condition type"
+    | o => ofE o
+  | fuel, .rangeB v e body, s =>
+    match evalE s e with
+    | .val (.bytes b) => execRange funs fuel v b.toList body s
+    | .val _ => .stuck "range operand"
+    | o => ofE o
   | fuel, .brk, s => .brk s
   | fuel, .cont, s => .cont s
   | fuel, .ret es, s =>
@@ -346,6 +425,16 @@ def exec1 (funs : String → Option FunDef) : (fuel : Nat) → Stmt → St → O
             | .brk _ | .cont _ => .stuck "break outside loop"
             | o => o
 termination_by fuel st _ => (fuel, sizeOf st, 1)
+
+/-- the iterations of a `range` loop over the bytes that were in the slice when the loop started -/
+def execRange (funs : String → Option FunDef) : (fuel : Nat) → String → List UInt8 → List Stmt → St → Out
+  | fuel, v, [], body, s => .normal s
+  | fuel, v, x :: xs, body, s =>
+    match exec funs fuel body { s with env := s.env.set v (.u8 x) } with
+    | .normal s' | .cont s' => execRange funs fuel v xs body s'
+    | .brk s' => .normal s'
+    | o => o
+termination_by fuel _ xs body _ => (fuel, sizeOf body, xs.length + 3)
 
 def execCases (funs : String → Option FunDef) : (fuel : Nat) → Val → List (List Expr × List Stmt) → List Stmt → St → Out
   | fuel, v, [], dflt, s => exec funs fuel dflt s
